@@ -315,4 +315,97 @@ theorem serializeXmlStringWith_norm (env : Env) (p : XmlParams) (t : Tree) (star
   unfold serializeXmlString serializeXmlStringWith
   rw [serializeXmlWriteWith_norm N env p t start h hs]
 
+/-! ### The escaping functions never decide about success -/
+
+/-- One `render_output` call: same outcome kind, same error, same next stack for any two sets of escaping
+    functions (only the token text depends on them). -/
+theorem renderXmlWith_outcome (e1 e2 : Escapers) (env : Env) (pr : TokenParams) (s : FStack) (node : Tree)
+    (parent : Option Tree) (o : Output) :
+    (renderXmlWith e1 env pr s node parent o).mapOk Prod.fst =
+      (renderXmlWith e2 env pr s node parent o).mapOk Prod.fst := by
+  cases o with
+  | pfx p ns =>
+    simp only [renderXmlWith]
+    split
+    · rfl
+    · split <;> rfl
+  | text s =>
+    simp only [renderXmlWith]
+    split <;> rfl
+  | startTagOpen name => rfl
+  | startTagClose => rfl
+  | endTag name => rfl
+  | comment s => rfl
+  | pi target data => rfl
+  | _ =>
+    simp only [renderXmlWith]
+    rename_i name value
+    cases FStack.attributeFullname env s name <;> rfl
+
+theorem renderAtWith_outcome (e1 e2 : Escapers) (env : Env) (pr : TokenParams) (t : Tree) (s : FStack)
+    (path : Path) (o : Output) :
+    (renderAtWith e1 env pr t s path o).mapOk Prod.fst = (renderAtWith e2 env pr t s path o).mapOk Prod.fst := by
+  unfold renderAtWith
+  cases t.at? path with
+  | none => rfl
+  | some node => exact renderXmlWith_outcome e1 e2 env pr s node _ o
+
+theorem writeGoWith_outcome (e1 e2 : Escapers) (env : Env) (pr : TokenParams) (t : Tree) (s : FStack)
+    (outs : List (Path × Output)) :
+    (writeGoWith e1 env pr t s outs).2 = (writeGoWith e2 env pr t s outs).2 := by
+  induction outs generalizing s with
+  | nil => rfl
+  | cons po rest ih =>
+    obtain ⟨p, o⟩ := po
+    have h := renderAtWith_outcome e1 e2 env pr t s p o
+    simp only [writeGoWith]
+    cases h1 : renderAtWith e1 env pr t s p o <;> cases h2 : renderAtWith e2 env pr t s p o <;>
+      simp only [h1, h2, Outcome.mapOk, Outcome.ok.injEq, Outcome.err.injEq, reduceCtorEq] at h
+    · rename_i r1 r2
+      obtain ⟨s1, k1⟩ := r1
+      obtain ⟨s2, k2⟩ := r2
+      simp only at h
+      subst h
+      exact ih s1
+    · subst h; rfl
+    · rfl
+
+theorem writePrettyGoWith_outcome (e1 e2 : Escapers) (env : Env) (pr : TokenParams) (sup : List Nat) (t : Tree)
+    (ps : PStack) (s : FStack) (outs : List (Path × Output)) :
+    (writePrettyGoWith e1 env pr sup t ps s outs).2 = (writePrettyGoWith e2 env pr sup t ps s outs).2 := by
+  induction outs generalizing ps s with
+  | nil => rfl
+  | cons po rest ih =>
+    obtain ⟨p, o⟩ := po
+    have h := renderAtWith_outcome e1 e2 env pr t s p o
+    simp only [writePrettyGoWith]
+    cases h1 : renderAtWith e1 env pr t s p o <;> cases h2 : renderAtWith e2 env pr t s p o <;>
+      simp only [h1, h2, Outcome.mapOk, Outcome.ok.injEq, Outcome.err.injEq, reduceCtorEq] at h
+    · rename_i r1 r2
+      obtain ⟨s1, k1⟩ := r1
+      obtain ⟨s2, k2⟩ := r2
+      simp only at h
+      subst h
+      exact ih _ s1
+    · subst h; rfl
+    · rfl
+
+/-- `serialize_xml_write_with_normalizer` ends as `serialize_xml_write` ends, for every normalizer (any
+    escaping functions): success or the same error. -/
+theorem serializeXmlWriteWith_outcome (e1 e2 : Escapers) (env : Env) (p : XmlParams) (t : Tree) (start : Path) :
+    (serializeXmlWriteWith e1 env p t start).2 = (serializeXmlWriteWith e2 env p t start).2 := by
+  unfold serializeXmlWriteWith
+  cases p.doctype with
+  | none =>
+    cases p.indentation with
+    | none => exact writeGoWith_outcome e1 e2 env _ t _ _
+    | some sup => exact writePrettyGoWith_outcome e1 e2 env _ sup t _ _ _
+  | some d =>
+    cases doctypeName env t start with
+    | err e => rfl
+    | panic => rfl
+    | ok name =>
+      cases p.indentation with
+      | none => exact writeGoWith_outcome e1 e2 env _ t _ _
+      | some sup => exact writePrettyGoWith_outcome e1 e2 env _ sup t _ _ _
 end XotModel
